@@ -583,6 +583,7 @@ func runC06(c *Ctx) {
 	formatAccessors(c)
 	wr, rd := registryAgreement(c)
 	writerSnifferAgreement(c, s, wr, rd)
+	renderEncodesRegisteredVersion(c)
 
 	// D4 no panic in the sniffer
 	const RG = "absent-part-guard"
@@ -898,6 +899,9 @@ func singleDispatch(c *Ctx) {
 					}
 					if id, isId := r0.(*ast.Ident); isId {
 						def := gdefs[objOf(gpk, id)]
+						if sel, isSel := def.(*ast.SelectorExpr); isSel && sel.Sel.Name == "Format" {
+							hOpt = true
+						}
 						if def == nil {
 							// bound by a tuple assignment
 							ast.Inspect(gfd.Body, func(k ast.Node) bool {
